@@ -106,7 +106,7 @@ def gen_intents(rng, nwl):
     its = []
     for w in range(nwl):
         if rng.random() < 0.85:
-            for _ in range(rng.choice([1, 1, 2])):
+            for _ in range(rng.choice([1, 1, 1, 1, 2])):
                 its.append(f"{w}.{gen_prog(rng)}")
     return ",".join(its) or "-"
 
@@ -584,7 +584,7 @@ def run(tier, seed, replay=None):
         cases = [d["replay"]["case"]] if "case" in d.get("replay", {}) else []
     else:
         cases = vf.load_corpus(PROP)
-        n = 24 if tier == "quick" else 260
+        n = 24 if tier == "quick" else 160
         n = int(os.environ.get("VERIF_C16_CASES", n))      # smaller budgets for mutation experiments only
         for i in range(n):
             cases.append(gen_case(r.rng, tier, 1000 + i))
